@@ -233,11 +233,12 @@ class Family:
             elif (i // 4) % 500 == 77:
                 bulk = g.r.randint(520, 1100)  # beyond batch / bulk-path thresholds
             ops = gen_history(g, ln, st == "csv", w, 0.08 if self.prop == "C11" else 0.03, bulk)
+            tz = C.LOCAL_ZONES[(i // 36) % len(C.LOCAL_ZONES)] if (i // 4) % 9 == 4 else None   # the process's local zone
             if csvkw and csvkw.get("access_mode") == "w+":
                 # opening in "w+" truncates by the user's choice: close-and-reopen is not a no-op there
                 ops = [o for o in ops if D.op_name(o) != "reopen"]
             cases.append({"cfg": ["cfg", st, au], **({"enc": enc} if enc else {}),
-                          **({"csvkw": csvkw} if csvkw else {}), "ops": ops})
+                          **({"csvkw": csvkw} if csvkw else {}), **({"tz": tz} if tz else {}), "ops": ops})
         return cases
 
     def enumerated(self, depth):
@@ -607,8 +608,13 @@ class Family:
                         batch = [tf.Point(time=V.dt_of(G.T0 + 100 + k), measurement=("m1" if k % 2 else "m2"),
                                           tags={"a": "x", "id": str(j)}, fields={"f": k}) for j, k in enumerate(order)]
 
-                        def absent(db=db, batch=batch):
-                            for p in batch:
+                        nested = (n % 3 == 0)
+
+                        def absent(db=db, batch=batch, nested=nested):
+                            for j, p in enumerate(batch):
+                                if nested and j == 1:
+                                    # ... or a write: a later point goes in through a nested call
+                                    db.insert(tf.Point(time=V.dt_of(G.T0 + 150), tags={"a": "x", "id": "nested"}))
                                 if not db.contains(tf.TimeQuery() == p.time):     # a read in the middle of the insert
                                     yield p
 
@@ -629,7 +635,7 @@ class Family:
                                     problems.append(f"{V.sx(pr)} answers {a1}, a rebuilt index {a2}")
                                     break
                         c = db.count(tf.TagQuery().a == "x")
-                        want = len({k for k in order})
+                        want = len({k for k in order}) + (1 if nested else 0)
                         if c != want or len(db) != len(contents):
                             problems.append(f"count(a == 'x') = {c} (distinct times inserted: {want}), len(db) = {len(db)}, stored {len(contents)}")
                         db.close()
@@ -757,7 +763,24 @@ def signature(case, d):
     flat = V.sx(op)
     # the empty measurement name used as a filter / handle name
     toks = flat.replace("(", " ").replace(")", " ").split()
-    if "x" in toks:
+    if "x" not in toks:
+        return None
+    # the known finding is precisely: the name "" is read as `no measurement given`. The implementation must then
+    # answer this history as it answers the one with the filter left out; anything else is another violation.
+    pos = {"search": 2, "count": 2, "contains": 2, "get": 2, "remove": 2, "select": 3, "tagkeys": 1, "fieldkeys": 1,
+           "timestamps": 1, "tagvalues": 2, "fieldvalues": 2, "ins": 1, "update": 3}
+    name = op[0]
+    if name not in pos or op[pos[name]] != "x":
+        return "empty-measurement-name"          # drop / mlen / miter / mall of "", or "" elsewhere in the term
+    try:
+        op2 = list(op)
+        op2[pos[name]] = "~"
+        ops2 = list(case["ops"])
+        ops2[d["index"]] = op2
+        d2 = run_one(dict(case, ops=ops2), False, False)
+    except Exception:
+        return "empty-measurement-name"
+    if d2 is None or d2["index"] > d["index"]:
         return "empty-measurement-name"
     return None
 
